@@ -15,6 +15,7 @@ import (
 	"path/filepath"
 	"reflect"
 	"strings"
+	"time"
 	"unsafe"
 
 	"github.com/cloudwego/dynamicgo/vsync"
@@ -563,7 +564,35 @@ func raceMonitor() core.Result {
 	}
 	cmd := exec.Command(race, "c12-racemon")
 	cmd.Env = append(os.Environ(), "GORACE=halt_on_error=1 exitcode=66", "GOMAXPROCS=8")
-	out, err := cmd.CombinedOutput()
+	var buf bytes.Buffer
+	cmd.Stdout, cmd.Stderr = &buf, &buf
+	if err := cmd.Start(); err != nil {
+		r.Class = "race-monitor:cannot-start"
+		r.Key = ""
+		return r
+	}
+	done := make(chan error, 1)
+	go func() { done <- cmd.Wait() }()
+	var err error
+	deadline := time.After(400 * time.Second)
+wait:
+	for {
+		select {
+		case err = <-done:
+			break wait
+		case <-time.After(2 * time.Second):
+			core.Alive() // the monitor is a single long case: keep the parent's watchdog informed
+		case <-deadline:
+			// internal deadline: the monitor is not an oracle for time; report and move on (no violation)
+			cmd.Process.Kill()
+			<-done
+			r.Class = "race-monitor:internal-deadline"
+			r.Key = ""
+			r.Count("race_monitor_deadline", 1)
+			return r
+		}
+	}
+	out := buf.Bytes()
 	if strings.Contains(string(out), "DATA RACE") {
 		// signature: the first two dynamicgo frames of the report
 		sig := "race"
@@ -607,7 +636,7 @@ func RaceMonMain() int {
 	for g := 0; g < 8; g++ {
 		go func(g int) {
 			n := 0
-			for it := 0; it < 150; it++ {
+			for it := 0; it < 60; it++ {
 				for k := range f.ops {
 					i := (k + g*3) % len(f.ops)
 					func() {
